@@ -107,7 +107,9 @@ class Contract:
         self.at_return = _plain(getattr(cls, 'at_return', None))
         # ghost cuts: [(source text the statement starts with, function over the unit's locals)]: after that statement each
         # returned clause is first proved (obligation kind 'cut') and then assumed -- the sidecar form of an assert
-        self.cuts = [(t_, _plain(f_)) for (t_, f_) in getattr(cls, 'cuts', [])]   # ghost code over the function's locals, run at each return of the unit     # ghost code run after requires is assumed (lemma instances)
+        self.cuts = [(e_[0], _plain(e_[1]), (e_[2] if len(e_) > 2 else None), tuple(e_[3]) if len(e_) > 3 else ()) for e_ in getattr(cls, 'cuts', [])]
+        # optional third item: which occurrence (source order) of that statement text; optional fourth: integer locals whose
+        # value is FORGOTTEN after the cut (replaced by a fresh unknown about which only the cut's clauses are assumed)   # ghost code over the function's locals, run at each return of the unit     # ghost code run after requires is assumed (lemma instances)
         self.func = getattr(cls, 'func', None)        # optional explicit function object getter
         self.verify = getattr(cls, 'verify', True)    # False: assumed contract (external / trusted)
         self.assumed_reason = getattr(cls, 'assumed_reason', None)
@@ -256,8 +258,9 @@ def _seq_from_model(model, e):
 class Int(Builder):
     kind = 'int'
 
-    def __init__(self, lo=None, hi=None, interesting=()):
+    def __init__(self, lo=None, hi=None, interesting=(), sample_hi=None):
         self.lo, self.hi, self.interesting = lo, hi, list(interesting)
+        self.sample_hi = sample_hi       # bound for NATIVE sampling only (loop counts); the symbolic value keeps [lo, hi]
 
     def symbolic(self, ip, name):
         v = fresh(name, 'int')
@@ -270,6 +273,8 @@ class Int(Builder):
     def sample(self, rng):
         lo = self.lo if self.lo is not None else -(1 << 80)
         hi = self.hi if self.hi is not None else (1 << 80)
+        if self.sample_hi is not None:
+            hi = min(hi, self.sample_hi)
         pool = [x for x in self.interesting + [0, 1, -1, 2, 127, 128, 252, 253, 254, 255, 256, 65535, 65536, 2**31 - 1, 2**31, 2**32 - 1, 2**32, 2**63, 2**64 - 1, lo, hi, lo + 1, hi - 1] if lo <= x <= hi]
         r = rng.random()
         if r < 0.4 and pool:
@@ -445,6 +450,38 @@ class WFile(Builder):
         f.write(v.getvalue())
         f.seek(v.tell())
         return f
+
+
+class ByteArray(Builder):
+    """a bytearray (by reference) with arbitrary content"""
+
+    def __init__(self, minlen=0, maxlen=None, sample_max=8):
+        self.minlen, self.maxlen, self.sample_max = minlen, maxlen, sample_max
+
+    def symbolic(self, ip, name):
+        d = fresh(name + "_data", 'bytes')
+        ln = z3.Length(d.e)
+        ip.st.assume(ln < MAX_LEN)
+        if self.minlen:
+            ip.st.assume(ln >= self.minlen)
+        if self.maxlen is not None:
+            ip.st.assume(ln <= self.maxlen)
+        return ip.st.alloc({'k': 'bytearray', 'data': d})
+
+    def sample(self, rng):
+        hi = self.maxlen if self.maxlen is not None and self.maxlen < self.sample_max else self.sample_max
+        n = rng.choice([self.minlen, hi, rng.randint(self.minlen, hi)])
+        return bytearray(rng.choice([0, 0, 1, 0x80, 0xff, rng.randrange(256)]) for _ in range(n))
+
+    def to_engine(self, ip, native):
+        return ip.st.alloc({'k': 'bytearray', 'data': lift(bytes(native))})
+
+    def from_model(self, ip, model, value):
+        c = ip.old_heap[value.id] if getattr(ip, 'old_heap', None) and value.id in ip.old_heap else ip.st.cell(value)
+        return bytearray(max(0, min(255, x)) for x in _seq_from_model(model, c['data'].e))
+
+    def native_copy(self, v):
+        return bytearray(v)
 
 
 class RFile(Builder):
